@@ -74,10 +74,10 @@ type vpWorld struct {
 	mu     sync.Mutex
 	failMu sync.Mutex
 	rng    *rand.Rand
-	regs  []*vpReg
-	coll  *collection
-	prov  Provider
-	built bool
+	regs   []*vpReg
+	coll   *collection
+	prov   Provider
+	built  bool
 
 	scopes   map[int]Scope // model scope id -> handle (0 = root scope, reachable only through the provider)
 	live     []int         // model ids of scopes created and not known closed
@@ -103,16 +103,16 @@ type vpWorld struct {
 	byInst   map[int]*vpBase
 
 	// monitor state
-	singletonOf map[string]*vpBase  // identity -> instance seen
-	scopedOf    map[string]*vpBase  // scope|identity -> instance
-	handed      map[*vpBase]string  // transient instances already handed out
-	buildDone   bool
-	provClosed  bool
-	hung        bool
+	singletonOf    map[string]*vpBase // identity -> instance seen
+	scopedOf       map[string]*vpBase // scope|identity -> instance
+	handed         map[*vpBase]string // transient instances already handed out
+	buildDone      bool
+	provClosed     bool
+	hung           bool
 	baseGoroutines int
-	injErr      []int // constructors that returned an injected error during the current API call
-	injPanic    []int
-	fails       []string
+	injErr         []int // constructors that returned an injected error during the current API call
+	injPanic       []int
+	fails          []string
 }
 
 func (w *vpWorld) fail(props, format string, a ...any) {
@@ -190,7 +190,9 @@ func (e *vpInjected) Error() string { return "injected failure of constructor " 
 
 type vpCloseErr struct{ inst int }
 
-func (e *vpCloseErr) Error() string { return "injected Close failure of instance " + strconv.Itoa(e.inst) }
+func (e *vpCloseErr) Error() string {
+	return "injected Close failure of instance " + strconv.Itoa(e.inst)
+}
 
 // ---------------------------------------------------------------- values → protocol text
 
@@ -1602,10 +1604,10 @@ func (r *vpRun) state(w *vpWorld, s int) {
 // ---------------------------------------------------------------- generator
 
 type vpGenOpts struct {
-	n        int
-	defects  bool // allow cycles / lifetime conflicts / missing dependencies
-	faults   bool // constructor and Close failures
-	forms    bool // multi-output, aliases, instances, initializers
+	n       int
+	defects bool // allow cycles / lifetime conflicts / missing dependencies
+	faults  bool // constructor and Close failures
+	forms   bool // multi-output, aliases, instances, initializers
 }
 
 type vpIdentity struct {
@@ -2160,6 +2162,123 @@ func (r *vpRun) reservedTypes(rng *rand.Rand) {
 	r.emit("p verdict", "ok")
 }
 
+// reentrant: constructors that call back into the container through the injected Provider while Build is
+// creating the singletons (a warm-up scope opened and closed inside a singleton constructor). Callbacks are
+// not part of the model M5, so this scenario has monitors only (labelled as a test, not a proof): the set is
+// valid, so Build must accept it (C08); every scope opened after Build runs every initializer once with the
+// built singleton (C02/C08); everything disposable is closed exactly once by Provider.Close (C10).
+type vrW struct{ closes atomic.Int32 }
+type vrZ struct{ closes atomic.Int32 }
+type vrS struct{ z *vrZ }
+
+func (x *vrW) Close() error { x.closes.Add(1); return nil }
+func (x *vrZ) Close() error { x.closes.Add(1); return nil }
+
+func (r *vpRun) reentrant(rng *rand.Rand) {
+	w := r.newWorld(rng)
+	zDependsOnW := rng.Intn(2) == 0 // otherwise the order comes from the map iteration of the sort
+	viaScope := rng.Intn(2) == 0
+	var ws []*vrW
+	var zs []*vrZ
+	var warmErr error
+	inits := 0
+	var initZ *vrZ
+	c := w.coll
+	var err error
+	add := func(e error) {
+		if e != nil && err == nil {
+			err = e
+		}
+	}
+	if viaScope {
+		add(c.AddSingleton(func(sc Scope) *vrW {
+			x := &vrW{}
+			ws = append(ws, x)
+			child, e := sc.CreateScope(context.Background())
+			if e != nil {
+				warmErr = e
+			} else if e := child.Close(); e != nil {
+				warmErr = e
+			}
+			return x
+		}))
+	} else {
+		add(c.AddSingleton(func(p Provider) *vrW {
+			x := &vrW{}
+			ws = append(ws, x)
+			child, e := p.CreateScope(context.Background())
+			if e != nil {
+				warmErr = e
+			} else if e := child.Close(); e != nil {
+				warmErr = e
+			}
+			return x
+		}))
+	}
+	if zDependsOnW {
+		add(c.AddSingleton(func(_ *vrW) *vrZ { x := &vrZ{}; zs = append(zs, x); return x }))
+	} else {
+		add(c.AddSingleton(func() *vrZ { x := &vrZ{}; zs = append(zs, x); return x }))
+	}
+	add(c.AddScoped(func(z *vrZ) { inits++; initZ = z }))
+	add(c.AddScoped(func(z *vrZ) *vrS { return &vrS{z: z} }))
+	if err != nil {
+		w.fail("C17", "re-entrant scenario: a valid registration was rejected: %v", err)
+		r.emit("p verdict", "ok")
+		return
+	}
+	var prov Provider
+	if guard(w, "Build", func() { prov, err = c.Build() }) {
+		r.emit("p verdict", "ok")
+		return
+	}
+	r.stats["reentrant"]++
+	if err != nil {
+		w.fail("C08", "Build rejected a valid registration set whose singleton constructor opens a scope through the injected %s: %v",
+			map[bool]string{true: "Scope", false: "Provider"}[viaScope], err)
+		r.emit("p verdict", "ok")
+		return
+	}
+	if warmErr != nil {
+		w.fail("C08,C13", "the scope opened inside a singleton constructor during Build failed: %v", warmErr)
+	}
+	if len(ws) != 1 || len(zs) != 1 {
+		w.fail("C01", "re-entrant Build ran the singleton constructors %d and %d times", len(ws), len(zs))
+	}
+	before := inits // the root scope has run the initializer once
+	if before != 1 {
+		w.fail("C02,C08", "after Build the scoped initializer has run %d times (want once, for the root scope)", before)
+	}
+	for k := 0; k < 1+rng.Intn(3); k++ {
+		var sc Scope
+		guard(w, "CreateScope", func() { sc, err = prov.CreateScope(nil) })
+		if err != nil || sc == nil {
+			w.fail("C08", "CreateScope failed after a re-entrant Build: %v", err)
+			break
+		}
+		if inits != before+1 || (len(zs) == 1 && initZ != zs[0]) {
+			w.fail("C02,C08", "a new scope ran the initializer %d times / with a singleton that is not the built one", inits-before)
+		}
+		before = inits
+		if v, e := Resolve[*vrS](sc); e != nil || (len(zs) == 1 && v.z != zs[0]) {
+			w.fail("C01,C04", "scoped service after a re-entrant Build: err=%v or wrong singleton", e)
+		}
+		sc.Close()
+	}
+	guard(w, "Provider.Close", func() { err = prov.Close() })
+	for _, x := range ws {
+		if n := x.closes.Load(); n != 1 {
+			w.fail("C10", "re-entrant scenario: singleton W closed %d times by Provider.Close", n)
+		}
+	}
+	for _, x := range zs {
+		if n := x.closes.Load(); n != 1 {
+			w.fail("C10", "re-entrant scenario: singleton Z closed %d times by Provider.Close", n)
+		}
+	}
+	r.emit("p verdict", "ok")
+}
+
 func vpEnvInt(name string, def int) int {
 	if v := os.Getenv(name); v != "" {
 		if n, err := strconv.Atoi(v); err == nil {
@@ -2203,6 +2322,10 @@ func TestVerifCore(t *testing.T) {
 		o := vpGenOpts{n: 2 + rng.Intn(7), forms: it%2 == 1, faults: it%3 == 2, defects: it%5 == 4}
 		if it%50 == 7 {
 			r.reservedTypes(rng)
+			continue
+		}
+		if it%50 == 23 {
+			r.reentrant(rng)
 			continue
 		}
 		r.scenario(rng, o)
